@@ -397,6 +397,8 @@ func (rt *runtime) cmplEvaluateNodeTryStatement(node *nodeTryStatement) Value {
 		tryCatchValue, exep = rt.tryCatchEvaluate(func() Value {
 			return rt.cmplEvaluateNodeStatement(node.catch.body)
 		})
+		// The catch parameter's scope ends with the catch block: finally runs outside it.
+		rt.scope.lexical = outer
 	}
 
 	if node.finally != nil {
